@@ -21,37 +21,29 @@ Record InvN (s : state) : Prop := mkInvN {
 
 (* ---- counting under a point update ---------------------------------------------------------- *)
 Definition b2n (b : bool) : nat := if b then 1 else 0.
-Lemma filter_upd : forall (f g : nat -> bool) t n a, (forall x, x <> t -> f x = g x) ->
-  length (filter g (seq a n)) + (if Nat.leb a t && Nat.ltb t (a + n) then b2n (f t) else 0) =
-  length (filter f (seq a n)) + (if Nat.leb a t && Nat.ltb t (a + n) then b2n (g t) else 0).
+Lemma filter_upd : forall (f g : nat -> bool) t l, (forall x, x <> t -> f x = g x) ->
+  length (filter g l) + cnt t l * b2n (f t) = length (filter f l) + cnt t l * b2n (g t).
 Proof.
-  intros f g t n. induction n as [|n IH]; intros a H; cbn [seq filter length].
-  - assert (Nat.leb a t && Nat.ltb t (a + 0) = false) as ->; [|lia].
-    destruct (Nat.leb a t) eqn:E1; auto. apply Nat.leb_le in E1. cbn. apply Nat.ltb_ge. lia.
-  - specialize (IH (S a) H).
-    destruct (Nat.eq_dec a t) as [->|N].
-    + assert (Nat.leb (S t) t && Nat.ltb t (S t + n) = false) as E0.
-      { assert (Nat.leb (S t) t = false) as -> by (apply Nat.leb_gt; lia). reflexivity. }
-      rewrite E0 in IH.
-      assert (Nat.leb t t && Nat.ltb t (t + S n) = true) as ->.
-      { rewrite Nat.leb_refl. cbn. apply Nat.ltb_lt. lia. }
-      destruct (f t), (g t); cbn [length b2n] in *; lia.
-    + rewrite (H a N).
-      assert (Nat.leb (S a) t && Nat.ltb t (S a + n) = Nat.leb a t && Nat.ltb t (a + S n)) as E0.
-      { destruct (Nat.leb a t) eqn:E1; destruct (Nat.leb (S a) t) eqn:E2; cbn [andb];
-          try apply Nat.leb_le in E1; try apply Nat.leb_le in E2; try apply Nat.leb_gt in E1; try apply Nat.leb_gt in E2; try lia.
-        - replace (S a + n) with (a + S n) by lia. reflexivity.
-        - symmetry. apply Nat.ltb_ge. lia. }
-      rewrite <- E0. destruct (g a); cbn [length]; lia.
+  intros f g t l H. induction l as [|a l IH]; cbn [filter length].
+  - rewrite cnt_nil. lia.
+  - rewrite cnt_cons. destruct (Nat.eqb a t) eqn:E.
+    + apply Nat.eqb_eq in E. subst a. destruct (f t), (g t); cbn [length b2n] in *; lia.
+    + apply Nat.eqb_neq in E. rewrite (H a E). destruct (g a); cbn [length]; lia.
+Qed.
+Lemma cnt_seq : forall t n, t < n -> cnt t (seq 0 n) = 1.
+Proof.
+  intros t n H. unfold cnt.
+  assert (I : In t (seq 0 n)) by (apply in_seq; lia).
+  pose proof (seq_NoDup n 0) as ND. rewrite (NoDup_count_occ Nat.eq_dec) in ND. specialize (ND t).
+  apply (count_occ_In Nat.eq_dec) in I. lia.
 Qed.
 
 Lemma users_upd : forall s s' v t, s_n s' = s_n s -> (forall x, x <> t -> counts s' v x = counts s v x) -> t < s_n s ->
   users_on s' v + b2n (counts s v t) = users_on s v + b2n (counts s' v t).
 Proof.
   intros s s' v t En H Ht. unfold users_on. rewrite En.
-  pose proof (filter_upd (counts s v) (counts s' v) t (s_n s) 0) as F.
-  assert (Nat.leb 0 t && Nat.ltb t (0 + s_n s) = true) as E. { cbn. apply Nat.ltb_lt. lia. }
-  rewrite E in F. apply F. intros x Nx. symmetry. auto.
+  pose proof (filter_upd (counts s v) (counts s' v) t (seq 0 (s_n s))) as F.
+  rewrite (cnt_seq t (s_n s) Ht) in F. rewrite !Nat.mul_1_l in F. apply F. intros x Nx. symmetry. auto.
 Qed.
 Lemma users_same : forall s s' v, s_n s' = s_n s -> (forall x, counts s' v x = counts s v x) -> users_on s' v = users_on s v.
 Proof.
